@@ -209,7 +209,13 @@ def recipe_text(rng: random.Random, title: Optional[str], servings: Optional[int
         pre_links, links = links[:1], links[1:]
     if pre_links:
         lines += ["Before the title " + pre_links[0], ""]
-    if title is not None:
+    if title == "":
+        # an EMPTY first heading: the title is "" (accepted: it is not None); with a serving count through an entity
+        if servings is None:
+            lines += [rng.choice(["#", "# ", "#   "]), ""]
+        else:
+            lines += ["# " + rng.choice(["&nbsp;", "&#32;", "&#x20;", "&ensp;"]) + " " + rng.choice(["for", "serves", "makes"]) + " " + str(servings), ""]
+    elif title is not None:
         h = "# " + title
         if servings is not None:
             h += rng.choice([" ", "  "]) + rng.choice(PREPS) + " " + str(servings)
@@ -361,7 +367,10 @@ def gen_site(rng: random.Random, profile: str = "valid", size: str = "medium") -
     outside = D("outside", [F("secret.bin", data=b"\x00SECRET-MARKER-\xff" + bytes(rng.randrange(256) for _ in range(8))),
                             F("secret.md", text="# Outside secret for 2\n\nSECRET-MARKER-TEXT\n\n    1 secret\n"),
                             D("odir", [F("deep.txt", text="SECRET-MARKER-DEEP\n")])])
-    base = D("", [src, outside])
+    siblings = [D(nm, [F("secret.bin", data=b"\x01SECRET-MARKER-SIBLING\xfe" + bytes(rng.randrange(256) for _ in range(6))),
+                       D("deep", [F("s.txt", text="SECRET-MARKER-SIBLING-DEEP\n")])])
+                for nm in SIBLING_NAMES]
+    base = D("", [src, outside] + siblings)
     inp = rng.choice([["src"], ["src"], ["src"], ["srclink"], ["src", "..", "src"], ["outside", "..", "src", "."]])
     if inp == ["srclink"]:
         base["ch"].append(L("srclink", rng.choice(["src", "{BASE}/src", "./src/"])))
@@ -414,6 +423,8 @@ def gen_site(rng: random.Random, profile: str = "valid", size: str = "medium") -
                 if serv is not None:
                     serv = min(serv, M) if rng.random() < 0.9 else rng.randrange(1, M + 1)
                 links = gen_links(rng, dp, tg, rng.choice([0, 0, 1, 1, 2, 3]))
+                if rng.random() < 0.08:
+                    t = ""
                 c["text"] = recipe_text(rng, t, serv, links)
             elif c["role"] == "readme":
                 links = gen_links(rng, dp, tg, rng.choice([0, 1, 1, 2]))
@@ -429,7 +440,11 @@ def gen_site(rng: random.Random, profile: str = "valid", size: str = "medium") -
 
 FAULTS = ["multiple-readme", "readme-missing-title", "readme-malformed-title", "recipe-missing-title", "compile",
           "max-servings", "link-outside-dots", "link-outside-abs-symlink", "link-outside-rel-symlink",
-          "link-outside-dir-symlink", "link-missing", "link-outside-encoded"]
+          "link-outside-dir-symlink", "link-missing", "link-outside-encoded",
+          "link-sibling-rel", "link-sibling-abs", "link-sibling-encoded", "link-sibling-symlink", "link-sibling-dir-symlink"]
+
+
+SIBLING_NAMES = ["src-private", "src2", "src.bak", "src copy", "srcé"]
 
 
 def plant_fault(rng: random.Random, site: Dict[str, Any], profile: str, tg: Dict[str, Any], dirs: List[Any]) -> None:
@@ -485,6 +500,26 @@ def plant_fault(rng: random.Random, site: Dict[str, Any], profile: str, tg: Dict
     elif kind == "link-outside-encoded":
         add_carrier(rng.choice(["%2E%2E/" * (len(dp) + 1) + "outside/secret.bin", "%2e%2e/" * (len(dp) + 1) + "outside/secret.bin",
                                 "..%2F" * (len(dp) + 1) + "outside%2Fsecret.bin"]))
+    elif kind.startswith("link-sibling"):
+        # the target lives in a SIBLING of the source root whose name starts with the root's name (src-private, src2 ...):
+        # outside by path components, "inside" for a string-prefix comparison
+        sib = rng.choice(SIBLING_NAMES)
+        tail = rng.choice(["secret.bin", "deep/s.txt"])
+        if kind == "link-sibling-rel":
+            add_carrier(ups + "/" + quote(sib, safe="") + "/" + tail, rng.random() < 0.4)
+        elif kind == "link-sibling-abs":
+            add_carrier("/../" + quote(sib, safe="") + "/" + tail)
+        elif kind == "link-sibling-encoded":
+            enc = "".join("%%%02X" % b for b in sib.encode("utf-8"))
+            add_carrier(rng.choice(["%2E%2E/" * (len(dp) + 1) + enc + "/" + tail,
+                                    "..%2F" * (len(dp) + 1) + enc + "%2F" + tail.replace("/", "%2f")]))
+        elif kind == "link-sibling-symlink":
+            dn["ch"].append(L("peek.bin", rng.choice(["{BASE}/" + sib + "/secret.bin", ups + "/" + sib + "/secret.bin"])))
+            add_carrier(rng.choice(["peek.bin", "./peek.bin?x=1"]), rng.random() < 0.4)
+        else:
+            dn["ch"].append(L("peekdir", rng.choice(["{BASE}/" + sib, ups + "/" + sib])))
+            add_carrier("peekdir/" + tail)
+            site["note"] = "the linked directory is also listed as a category"
     elif kind == "broken-md-symlink":
         dn["ch"].append(L("dangling.md", "no-such-target.md"))
     elif kind == "f12":
